@@ -490,7 +490,7 @@ func (w *World) Judge(conn int, m wire.Msg) Verdict {
 					return Verdict{Local: true, Success: wire.Rread}
 				case cnt == 0:
 					return rejAny("xattr-read-empty-buffer", EINVAL)
-				case off+cnt > f.XSize:
+				case off > f.XSize || cnt > f.XSize-off: // (no addition: offsets go up to 2^64-1)
 					// reading past the value: the code refuses; a server that
 					// shortens the read instead is equally within the statement
 					return Verdict{DontCare: true}
